@@ -16,7 +16,7 @@ CHECK = {
         "runs": [
             {"name": "engine", "run": "^TestC10_Engine", "checks": {"quick": 4000, "thorough": 20000}, "shards": {"quick": 1, "thorough": 16}},
             # exported Lookup / ContentLookup of a real instance over the simulated network against scripted discv5 peers (package p_proto)
-            {"name": "net", "package": "p_proto", "run": "^TestC10_Net$", "checks": {"quick": 25, "thorough": 300}, "shards": {"quick": 6, "thorough": 16}},
+            {"name": "net", "package": "p_proto", "run": "^TestC10_Net$", "checks": {"quick": 25, "thorough": 50}, "shards": {"quick": 6, "thorough": 16}, "rounds": {"quick": 1, "thorough": 4}},
         ],
         "rule": "[real-instance run] rapid draws 1..24 scripted discv5 peers {FINDNODES answer kind: honest at the asked distances / plus the asker and itself / duplicates / wrong "
                 "distances / undecodable / empty / silent; FINDCONTENT answer kind: ENRs / content / empty content / connection id nobody serves / garbage / empty / silent; known peers; delay}, "
